@@ -187,11 +187,10 @@ func exportRuleInner(id int, text, src, wantPat string) (c progCase, r *rules.Ne
 	}
 	pat := r.VerifPattern()
 	if wantPat != "" {
-		w := wantPat
-		if strings.HasSuffix(w, "/*") {
-			w = w[:len(w)-2] + "^"
-		}
-		if w != pat {
+		// the reference is the pattern AS WRITTEN (the trailing "/*" form is part of the mask language, spec/Mask.tla).
+		// Renderer sanity only: the text was split where intended iff the rule carries exactly the $domain we appended
+		// (a pattern ending in a backslash would swallow the options delimiter).
+		if d := r.GetPermittedDomains(); len(d) != 1 || d[0] != "example.org" || strings.HasSuffix(wantPat, "\\") {
 			return c, r, errSkip
 		}
 		pat = wantPat
